@@ -35,7 +35,7 @@ def load_known():
 
 def contract_oids(G):
     """obligations defined by the contract files (stable against edits of /repo)"""
-    return {oid: o for oid, o in G.obligations.items() if o['kind'] != 'call-requires' and o.get('origin') not in ('R12', 'auto-monotone-loop', 'auto-frame-loop')}
+    return {oid: o for oid, o in G.obligations.items() if o['kind'] != 'call-requires' and o.get('origin') not in ('R12', 'auto-monotone-loop', 'auto-frame-loop', 'auto-hoist-loop')}
 
 
 def lock_table(G):
@@ -166,7 +166,7 @@ def check_property(pid, tier, seed, shared=None):
             print('UNDECIDED: %s has obligations in %s, whose body is outside the verifier subset in this tree' % (pid, skipped_hit))
             return 2
     mine = {oid: o for oid, o in G.obligations.items() if pid in o['tags']}
-    mine_contract = {oid for oid, o in mine.items() if o['kind'] != 'call-requires' and o.get('origin') not in ('R12', 'auto-monotone-loop', 'auto-frame-loop')}
+    mine_contract = {oid for oid, o in mine.items() if o['kind'] != 'call-requires' and o.get('origin') not in ('R12', 'auto-monotone-loop', 'auto-frame-loop', 'auto-hoist-loop')}
     locked = {oid for oid, tags in lock.items() if pid in tags}
     if not mine:
         print('UNDECIDED: no obligation carries property %s (vacuous check)' % pid)
